@@ -195,12 +195,20 @@ def trait_of(cfg):
     raise MachineryError("trait type " + t)
 
 
-def holder(cfg):
+def holder(cfg, via=None):
+    """via: None | "pickle" | "deepcopy": the trait DEFINITION object (CTrait) is round-tripped first (C14)"""
     w = world()
-    key = json.dumps(cfg, sort_keys=True)
+    key = json.dumps(cfg, sort_keys=True) + "|" + str(via)
     if key not in w["classes"]:
         from traits import api as T
-        cls = type("V_%d" % len(w["classes"]), (T.HasTraits,), {"x": trait_of(cfg), "y": T.Int(7), "z": T.Str("z")})
+        tr = trait_of(cfg)
+        if via is not None:
+            import copy as _copy
+            import pickle as _pickle
+            from traits.trait_converters import trait_from
+            ct = trait_from(tr)
+            tr = _pickle.loads(_pickle.dumps(ct)) if via == "pickle" else _copy.deepcopy(ct)
+        cls = type("V_%d" % len(w["classes"]), (T.HasTraits,), {"x": tr, "y": T.Int(7), "z": T.Str("z")})
         w["classes"][key] = cls
     return w["classes"][key]
 
@@ -225,9 +233,17 @@ def has_string(cfg):
     return cfg["t"] == "String" or any(has_string(m) for m in cfg["ms"])
 
 
-def execute(cfg, tok, route):
+def execute(cfg, tok, route, via=None):
     w = world()
-    cls = holder(cfg)
+    try:
+        cls = holder(cfg, via)
+    except (TypeError, AttributeError, __import__("pickle").PicklingError) as e:
+        if via is None:
+            raise
+        # a definition that pickle refuses cleanly has not "survived with different behaviour": outside the quantifier
+        o = {"tag": "unpicklable", "w": {"ty": "none", "num": NoNum, "s": ""}, "e": type(e).__name__, "members": []}
+        return {"cfg": cfg, "tok": tok, "route": route, "a": o, "f": o, "p": o, "frame": 1, "msg": 1, "sh": proj(None),
+                "via": via, "skip": 1}
     v = w["toks"][tok]
     loose = is_loose(cfg) and not isinstance(v, str)
     strlen = cfg["t"] == "String"
@@ -287,7 +303,8 @@ def execute(cfg, tok, route):
         with warnings.catch_warnings():
             warnings.simplefilter("ignore")
             p, _ = outcome(lambda: handler.validate(obj, "x", v), loose, strlen)
-    return {"cfg": cfg, "tok": tok, "route": route, "a": a, "f": f, "p": p, "frame": frame, "msg": msg, "sh": sh}
+    return {"cfg": cfg, "tok": tok, "route": route, "a": a, "f": f, "p": p, "frame": frame, "msg": msg, "sh": sh,
+            "via": via, "skip": 0}
 
 
 ROUTES = ["setattr", "ctor", "trait_set", "trait_setq"]
